@@ -54,13 +54,13 @@ def _scenario(rnd):
         blocks += rest
         actions = [{'t': t, 'yields': y, 'op': 'hit', 'dest': 1}]
     elif kind == 'swallowed':
-        blocks = [{'kind': 'plain', 'fault': 'handler'}, {'kind': 'catcher', 'to': 1}]
+        blocks = [{'kind': 'plain', 'fault': 'handler', 'hexc': rnd.choice(['boom', 'invalid'])}, {'kind': 'catcher', 'to': 1}]
         actions = [{'t': t, 'yields': y, 'op': 'hit', 'dest': 2},
                    {'t': t + 2, 'yields': 0, 'op': 'ext', 'dest': 2, 'shape': {'value': 1}}]
     elif kind == 'swallowed_inside':
         # the failing handler is reached from inside the simulation task, a block in between
         # catches the exception
-        blocks = [{'kind': 'plain', 'fault': 'handler'}, {'kind': 'catcher', 'to': 1},
+        blocks = [{'kind': 'plain', 'fault': 'handler', 'hexc': rnd.choice(['boom', 'invalid'])}, {'kind': 'catcher', 'to': 1},
                   {'kind': 'cb', 'trigger': -1, 'to': 2}]
         actions = [{'t': t, 'yields': y, 'op': 'hit', 'dest': 3},
                    {'t': t + 2, 'yields': 0, 'op': 'ext', 'dest': 2, 'shape': {'value': 1}}]
@@ -69,7 +69,7 @@ def _scenario(rnd):
         actions = [{'t': t, 'yields': y, 'op': 'abort', 'code': 903},
                    {'t': t, 'yields': y + rnd.randint(0, 1), 'op': 'abort', 'code': 904}]
     elif kind == 'handler_then_abort':
-        blocks = [{'kind': 'plain', 'fault': 'handler'}, {'kind': rnd.choice(['slowstop', 'oa', 'plain']), 'slowstop': 3}]
+        blocks = [{'kind': 'plain', 'fault': 'handler', 'hexc': rnd.choice(['boom', 'invalid'])}, {'kind': rnd.choice(['slowstop', 'oa', 'plain']), 'slowstop': 3}]
         actions = [{'t': t, 'yields': y, 'op': 'hit', 'dest': 1},
                    {'t': t, 'yields': y, 'op': rnd.choice(['abort', 'shutdown']), 'code': 905}]
         if rnd.random() < 0.5:
